@@ -28,6 +28,9 @@ CLAIMS = {
  "C03": dict(tech=SMT, ref="DESIGN.md §8 C03",
   text="Stage 1 of C03, for all int64 indices and all array sizes (quantified invariants, no bound): the array part keeps its border invariant (everything from len on is nil, the element at len is not) under get/setValue/resetValue/remove/grow, each of which changes only the addressed position; array.next returns the next position holding a value (or 0) from any position of the array part, including one whose value has just been cleared; the mixed table always hands the NORMALISED key (integer-valued floats as integers) to the hash part in get/insert/reset/remove/next, never consults the hash part for an integer key inside the array part, reports from the array part a length that is a border and otherwise a length l with t[l+1] absent and t[l] present, and growing moves only non-nil values into the array part; StringValue packs strings of at most 7 bytes (bytes + length) into the scalar that string-key equality and hashing use, and nothing else. The chained hash table itself (findSlot/insertNewKeyValue/copyItems) is assumed through frame contracts; Value.Equals/Hash consistency and the metamethod wiring in SetIndex/Index are not decided.",
   note="Trusted: frame contracts of the hash part (find is a function of the hash part's state; set/reset/removeKey/grow/cleanup touch only hash-part objects), calculateArraySize result < 2^46 (a table never holds that many integer keys), classifyIndices; float bit patterns abstracted in integer mode (f64bits_int / asfloat_of); little-endian amd64 for the 8-byte read in StringValue; ground instantiation of assumed quantified facts at the function's index terms (sound: instances of hypotheses)."),
+ "C06": dict(tech=SMT, ref="DESIGN.md §8 C06",
+  text="Kernel of C06: (1) the memory counter, for all 64-bit values: requireMem/RequireMem leave a live context strictly below a non-zero limit or terminate it with the counter unchanged, the sum saturates instead of wrapping, ReleaseMem never goes below zero under its precondition (amount <= used), PopContext charges the child's memory to the restored parent. (2) Charge-before-allocate, generated mechanically for every allocation of a program-chosen size (make, strings.Repeat, Builder.Grow, ToLower/ToUpper, string concatenation) in string.rep/reverse/lower/upper, utf8.char and the `..` operator: the bytes charged earlier in the same call (ghost counter advanced by RequireMem's contract) cover the allocation. Same-size copies of data the context already holds ([]byte(s), string(b)) are not counted. Real Go heap growth, pairing of require/release across functions (load, coroutines, continuations) and the remaining library functions are not decided.",
+  note="Trusted: ghost counter mem is advanced only by the contracts of RequireMem/requireMem; Thread.Runtime != nil assumed as a type invariant; external calls havoc the heap. Known unrepaired defects found while reading (double release on compile errors, Thread.end releasing in another context, readCode allocating before charging) are outside the functions under contract and listed in DESIGN §13."),
 }
 
 NA = {
